@@ -833,6 +833,10 @@ func (e *Env) evalCall(n *ast.CallExpr) Val {
 			out.C = append(out.C, Ite(has, vs.C[i], IntLit(0)))
 		}
 		return out
+	case "hget":
+		// hget(h, key): h.Get(key)
+		h, k := arg(0), arg(1)
+		return e.x.headerGet(e.st, h, k.T())
 	case "ifaceStr":
 		// ifaceStr(x): the string boxed in interface value x
 		tag := e.x.prog.typeTag(types.Typ[types.String])
